@@ -1,25 +1,12 @@
 --------------------------- MODULE MCWireFieldsQ ---------------------------
 (* C20 decision pipeline, quick bound: 2 spans (root, child) in either order, on time or late, with or without a
-   root at decision time; 8 real sampler configurations; 4 decoration profiles; 2 ingest paths; 4 x 3 field shapes *)
-EXTENDS WireFields
+   root at decision time; the 8 sampler configurations; 4 decoration profiles; 2 ingest paths; 3 x 2 field shapes *)
+EXTENDS MCWireFieldsBase
 mc_Spans == {"r", "c"}
-mc_ClientNames == {"svc", "http", "http.response.status", "tags", "dur"}
-mc_PathNames == {"http.response.status", "http.method", "tags.0", "http.request.id"}
-mc_Under == ("http.response.status" :> "http") @@ ("http.method" :> "http") @@ ("tags.0" :> "tags") @@ ("http.request.id" :> "http")
 mc_Crate == ("r" :> 0) @@ ("c" :> 2)
-mc_Shapes == ("r" :> {{"svc", "http", "tags", "dur"}, {"svc", "http.response.status", "dur"}, {"http", "http.response.status", "tags"}, {}})
-          @@ ("c" :> {{"svc", "http"}, {"http.response.status", "tags", "dur"}, {"dur"}})
-S(id, all, nonroot, nested, paths) == [id |-> id, all |-> all, nonroot |-> nonroot, nested |-> nested, paths |-> paths]
-mc_Samplers == {
-  S("rules-nested", {"http.request.id", "http.response.status"}, {"http.request.id", "http.response.status"}, TRUE, {"http.request.id", "http.response.status"}),
-  S("rules-flat", {"http.request.id", "http.response.status"}, {"http.request.id", "http.response.status"}, FALSE, {"http.request.id", "http.response.status"}),
-  S("rules-rootlist", {"http.response.status", "http.method", "tags.0", "svc"}, {"http.method", "svc"}, TRUE, {"http.response.status", "http.method", "tags.0", "svc"}),
-  S("rules-spanscope", {"svc", "http.method"}, {"svc", "http.method"}, TRUE, {"svc", "http.method"}),
-  S("rules-downstream", {"tags.0", "svc", "http.response.status", "dur", "http"}, {"tags.0", "svc", "http.response.status", "http"}, TRUE, {"tags.0"}),
-  S("dynamic", {"svc", "http", "dur", "tags"}, {"svc", "http"}, FALSE, {}),
-  S("throughput", {"http.response.status", "dur"}, {"http.response.status", "dur"}, FALSE, {}),
-  S("deterministic", {}, {}, FALSE, {})}
-P(dry, reason, counts, spancount, host, attrs) == [dryRun |-> dry, addReason |-> reason, addCounts |-> counts, addSpanCount |-> spancount, addHost |-> host, attrs |-> attrs]
+mc_Shapes == ("r" :> {{"svc", "http", "tags", "dur"}, {"svc", "http.response.status", "dur"}, {"http", "http.response.status", "tags"}})
+          @@ ("c" :> {{"svc", "http"}, {"http.response.status", "tags", "dur"}})
+mc_Samplers == mc_AllSamplers
 mc_Profiles == {P(FALSE, FALSE, FALSE, FALSE, FALSE, {}),
                 P(FALSE, TRUE, TRUE, FALSE, TRUE, {"env"}),
                 P(TRUE, TRUE, FALSE, TRUE, FALSE, {}),
